@@ -104,6 +104,11 @@ pub struct Arena {
     intern: HashMap<Node, Tm>,
     bintern: HashMap<BNode, Bm>,
     pub vars: Vec<VarInfo>,
+    /// number of nonlinear nodes (symbolic×symbolic product, symbolic divisor)
+    pub nl: usize,
+    /// interval bounds per integer node, from the declared ranges of the variables (None = unknown)
+    bounds: Vec<(Option<I>, Option<I>)>,
+    var_ranges: HashMap<String, (I, I)>,
 }
 
 impl Arena {
@@ -114,6 +119,9 @@ impl Arena {
             intern: HashMap::new(),
             bintern: HashMap::new(),
             vars: vec![],
+            nl: 0,
+            bounds: vec![],
+            var_ranges: HashMap::new(),
         };
         a.mk(Node::Const(I::from(0u8)));
         a.mk(Node::Const(I::from(1u8)));
@@ -129,9 +137,87 @@ impl Arena {
             return *t;
         }
         let t = Tm(self.nodes.len() as u32);
+        if self.is_nl(&n) {
+            self.nl += 1;
+        }
+        let b = self.compute_bounds(&n);
+        self.bounds.push(b);
         self.nodes.push(n.clone());
         self.intern.insert(n, t);
         t
+    }
+    fn compute_bounds(&self, n: &Node) -> (Option<I>, Option<I>) {
+        let zero = I::from(0u8);
+        let bd = |t: &Tm| self.bounds[t.0 as usize];
+        match n {
+            Node::Const(c) => (Some(*c), Some(*c)),
+            Node::Var(name) => match self.var_ranges.get(name) {
+                Some((lo, hi)) => (Some(*lo), Some(*hi)),
+                None => (None, None),
+            },
+            Node::Add(a, b) => {
+                let ((la, ha), (lb, hb)) = (bd(a), bd(b));
+                (
+                    la.zip(lb).and_then(|(x, y)| x.checked_add(y)),
+                    ha.zip(hb).and_then(|(x, y)| x.checked_add(y)),
+                )
+            }
+            Node::Sub(a, b) => {
+                let ((la, ha), (lb, hb)) = (bd(a), bd(b));
+                (
+                    la.zip(hb).and_then(|(x, y)| x.checked_sub(y)),
+                    ha.zip(lb).and_then(|(x, y)| x.checked_sub(y)),
+                )
+            }
+            Node::Mul(a, b) => {
+                let ((la, ha), (lb, hb)) = (bd(a), bd(b));
+                match (la, ha, lb, hb) {
+                    (Some(la), Some(ha), Some(lb), Some(hb)) if la >= zero && lb >= zero => {
+                        (la.checked_mul(lb), ha.checked_mul(hb))
+                    }
+                    (Some(la), _, Some(lb), _) if la >= zero && lb >= zero => (la.checked_mul(lb), None),
+                    _ => (None, None),
+                }
+            }
+            Node::Div(a, b) => {
+                let ((la, ha), (lb, hb)) = (bd(a), bd(b));
+                match (la, lb) {
+                    (Some(la), Some(lb)) if la >= zero && lb > zero => {
+                        (Some(match hb { Some(hb) => la / hb, None => zero }), ha.map(|h| h / lb))
+                    }
+                    _ => (None, None),
+                }
+            }
+            Node::Rem(a, b) => {
+                let ((la, ha), (lb, hb)) = (bd(a), bd(b));
+                match (la, lb) {
+                    (Some(la), Some(lb)) if la >= zero && lb > zero => {
+                        let h1 = hb.map(|h| h - I::from(1u8));
+                        let hi = match (ha, h1) {
+                            (Some(x), Some(y)) => Some(if x < y { x } else { y }),
+                            (Some(x), None) => Some(x),
+                            (None, y) => y,
+                        };
+                        (Some(zero), hi)
+                    }
+                    _ => (None, None),
+                }
+            }
+            Node::Ite(_, a, b) => {
+                let ((la, ha), (lb, hb)) = (bd(a), bd(b));
+                (
+                    la.zip(lb).map(|(x, y)| if x < y { x } else { y }),
+                    ha.zip(hb).map(|(x, y)| if x > y { x } else { y }),
+                )
+            }
+        }
+    }
+    fn is_nl(&self, n: &Node) -> bool {
+        match n {
+            Node::Mul(a, b) => self.cval(*a).is_none() && self.cval(*b).is_none(),
+            Node::Div(_, b) | Node::Rem(_, b) => self.cval(*b).is_none(),
+            _ => false,
+        }
     }
     fn mkb(&mut self, n: BNode) -> Bm {
         if let Some(t) = self.bintern.get(&n) {
@@ -183,6 +269,9 @@ pub struct Stats {
     pub paths_infeasible: u64,
     pub paths_cut: u64,
     pub queries: u64,
+    pub queries_abstract: u64,
+    pub oneshots: u64,
+    pub abstract_unsat: u64,
     pub solver_ms: u64,
     pub obligations: u64,
     pub discharged: u64,
@@ -206,6 +295,9 @@ impl Stats {
         self.paths_infeasible += o.paths_infeasible;
         self.paths_cut += o.paths_cut;
         self.queries += o.queries;
+        self.queries_abstract += o.queries_abstract;
+        self.oneshots += o.oneshots;
+        self.abstract_unsat += o.abstract_unsat;
         self.solver_ms += o.solver_ms;
         self.obligations += o.obligations;
         self.discharged += o.discharged;
@@ -244,6 +336,7 @@ struct Ctx {
     trail: Vec<Dec>,
     pos: usize,
     solver: Option<Solver>,
+    solver_a: Option<Solver>,
     pc: Vec<Bm>,
     pc_unchecked: bool,
     stats: Stats,
@@ -257,7 +350,7 @@ struct Ctx {
 
 thread_local! {
     static CTX: RefCell<Ctx> = RefCell::new(Ctx {
-        arena: Arena::new(), trail: vec![], pos: 0, solver: None, pc: vec![], pc_unchecked: false,
+        arena: Arena::new(), trail: vec![], pos: 0, solver: None, solver_a: None, pc: vec![], pc_unchecked: false,
         stats: Stats::default(), picks: vec![], active: false, cfg: Config::default(), notes: vec![],
         donate: None, path_solver_discharged: 0,
     });
@@ -268,6 +361,8 @@ thread_local! {
 pub struct Config {
     pub solver_cmd: Vec<String>,
     pub timeout_ms: u64,
+    /// timeout of the incremental core; a query it does not finish goes to a one-shot process
+    pub inc_timeout_ms: u64,
     pub threads: usize,
     pub seed: u64,
     pub max_paths: u64,
@@ -279,6 +374,7 @@ impl Default for Config {
         Config {
             solver_cmd: vec!["z3-new".into(), "-in".into()],
             timeout_ms: 10_000,
+            inc_timeout_ms: 250,
             threads: 1,
             seed: 0,
             max_paths: u64::MAX,
@@ -323,9 +419,13 @@ pub fn fresh(name: &str, lo: I, hi: I) -> Tm {
         if let Some(v) = c.arena.vars.iter().find(|v| v.name == name) {
             return v.tm;
         }
+        c.arena.var_ranges.insert(name.to_string(), (lo, hi));
         let t = c.arena.mk(Node::Var(name.to_string()));
         c.arena.vars.push(VarInfo { name: name.to_string(), lo, hi, tm: t });
         if let Some(s) = c.solver.as_mut() {
+            s.declare_var(name, &lo, &hi);
+        }
+        if let Some(s) = c.solver_a.as_mut() {
             s.declare_var(name, &lo, &hi);
         }
         t
@@ -458,6 +558,13 @@ pub fn div(a: Tm, b: Tm) -> Tm {
             _ => {}
         }
         if let Some(k2) = ar.cval(b) {
+            if k2 > one && matches!(ar.nodes[a.0 as usize], Node::Add(..) | Node::Sub(..)) {
+                if let Some(q) = exact_quotient(ar, a, k2, 0) {
+                    return q;
+                }
+            }
+        }
+        if let Some(k2) = ar.cval(b) {
             if k2 > zero {
                 match ar.nodes[a.0 as usize].clone() {
                     // (x * k1) / k2
@@ -520,6 +627,63 @@ fn mul_in(ar: &mut Arena, a: Tm, k: Tm) -> Tm {
     ar.mk(Node::Mul(a, k))
 }
 
+/// if `t` is syntactically a multiple of the positive constant `k`, return t / k (exact)
+fn exact_quotient(ar: &mut Arena, t: Tm, k: I, depth: usize) -> Option<Tm> {
+    let zero = I::from(0u8);
+    if depth > 6 {
+        return None;
+    }
+    match ar.nodes[t.0 as usize].clone() {
+        Node::Const(c) => {
+            if c % k == zero {
+                Some(ar.mk(Node::Const(c / k)))
+            } else {
+                None
+            }
+        }
+        Node::Mul(x, kk) => {
+            let c = ar.cval(kk)?;
+            if c % k == zero {
+                let q = ar.mk(Node::Const(c / k));
+                Some(mul_in(ar, x, q))
+            } else {
+                None
+            }
+        }
+        Node::Add(a, b) => {
+            let qa = exact_quotient(ar, a, k, depth + 1)?;
+            let qb = exact_quotient(ar, b, k, depth + 1)?;
+            let (ca, cb) = (ar.cval(qa), ar.cval(qb));
+            if let (Some(x), Some(y)) = (ca, cb) {
+                return Some(ar.mk(Node::Const(x + y)));
+            }
+            if ca == Some(zero) {
+                return Some(qb);
+            }
+            if cb == Some(zero) {
+                return Some(qa);
+            }
+            let (p, q) = if qa <= qb { (qa, qb) } else { (qb, qa) };
+            Some(ar.mk(Node::Add(p, q)))
+        }
+        Node::Sub(a, b) => {
+            let qa = exact_quotient(ar, a, k, depth + 1)?;
+            let qb = exact_quotient(ar, b, k, depth + 1)?;
+            if qa == qb {
+                return Some(T_ZERO);
+            }
+            if let (Some(x), Some(y)) = (ar.cval(qa), ar.cval(qb)) {
+                return Some(ar.mk(Node::Const(x - y)));
+            }
+            if ar.cval(qb) == Some(zero) {
+                return Some(qa);
+            }
+            Some(ar.mk(Node::Sub(qa, qb)))
+        }
+        _ => None,
+    }
+}
+
 pub fn rem(a: Tm, b: Tm) -> Tm {
     with(|c| {
         let ar = &mut c.arena;
@@ -528,6 +692,13 @@ pub fn rem(a: Tm, b: Tm) -> Tm {
             (Some(x), Some(y)) if y > zero && x >= zero => return ar.mk(Node::Const(x % y)),
             (None, Some(y)) if y == I::from(1u8) => return T_ZERO,
             _ => {}
+        }
+        if let Some(k2) = ar.cval(b) {
+            if k2 > I::from(1u8) && matches!(ar.nodes[a.0 as usize], Node::Add(..) | Node::Sub(..)) {
+                if exact_quotient(ar, a, k2, 0).is_some() {
+                    return T_ZERO;
+                }
+            }
         }
         // (x * k1) % k2 with k2 | k1 → 0
         if let Some(k2) = ar.cval(b) {
@@ -575,12 +746,29 @@ fn cmp_fold(ar: &Arena, a: Tm, b: Tm) -> Option<std::cmp::Ordering> {
         _ => None,
     }
 }
+/// what the interval bounds say about a ? b: (a < b surely, a <= b surely, a > b surely, a >= b surely)
+fn range_rel(ar: &Arena, a: Tm, b: Tm) -> (bool, bool, bool, bool) {
+    let (la, ha) = ar.bounds[a.0 as usize];
+    let (lb, hb) = ar.bounds[b.0 as usize];
+    let lt = matches!((ha, lb), (Some(x), Some(y)) if x < y);
+    let le = matches!((ha, lb), (Some(x), Some(y)) if x <= y);
+    let gt = matches!((la, hb), (Some(x), Some(y)) if x > y);
+    let ge = matches!((la, hb), (Some(x), Some(y)) if x >= y);
+    (lt, le, gt, ge)
+}
 
 pub fn le(a: Tm, b: Tm) -> Bm {
     with(|c| {
         let ar = &mut c.arena;
         if let Some(o) = cmp_fold(ar, a, b) {
             return b_const(o != std::cmp::Ordering::Greater);
+        }
+        let (_, le_, gt_, _) = range_rel(ar, a, b);
+        if le_ {
+            return B_TRUE;
+        }
+        if gt_ {
+            return B_FALSE;
         }
         ar.mkb(BNode::Le(a, b))
     })
@@ -591,6 +779,13 @@ pub fn lt(a: Tm, b: Tm) -> Bm {
         if let Some(o) = cmp_fold(ar, a, b) {
             return b_const(o == std::cmp::Ordering::Less);
         }
+        let (lt_, _, _, ge_) = range_rel(ar, a, b);
+        if lt_ {
+            return B_TRUE;
+        }
+        if ge_ {
+            return B_FALSE;
+        }
         ar.mkb(BNode::Lt(a, b))
     })
 }
@@ -599,6 +794,10 @@ pub fn eq(a: Tm, b: Tm) -> Bm {
         let ar = &mut c.arena;
         if let Some(o) = cmp_fold(ar, a, b) {
             return b_const(o == std::cmp::Ordering::Equal);
+        }
+        let (lt_, _, gt_, _) = range_rel(ar, a, b);
+        if lt_ || gt_ {
+            return B_FALSE;
         }
         let (a, b) = if a <= b { (a, b) } else { (b, a) };
         ar.mkb(BNode::Eq(a, b))
@@ -798,10 +997,18 @@ struct Solver {
     log: Option<std::fs::File>,
     is_z3: bool,
     timeout_ms: u64,
+    /// abstract mode: nonlinear nodes become fresh integers constrained by linear lemmas
+    /// (an over-approximation: unsat here is unsat in the exact semantics)
+    abs: bool,
+    /// everything asserted/declared since the last reset (queries excluded): lets a query that the
+    /// incremental core does not finish be re-posed to a fresh one-shot process (full preprocessing)
+    script: String,
+    cmd: Vec<String>,
+    inc_timeout_ms: u64,
 }
 
 impl Solver {
-    fn spawn(cmd: &[String], timeout_ms: u64) -> Solver {
+    fn spawn(cmd: &[String], timeout_ms: u64, inc_timeout_ms: u64, abs: bool) -> Solver {
         let mut child = Command::new(&cmd[0])
             .args(&cmd[1..])
             .stdin(Stdio::piped())
@@ -819,13 +1026,13 @@ impl Solver {
                 .unwrap()
         });
         let is_z3 = cmd[0].contains("z3");
-        let mut s = Solver { child, stdin, stdout, tdef: vec![], bdef: vec![], log, is_z3, timeout_ms };
+        let mut s = Solver { child, stdin, stdout, tdef: vec![], bdef: vec![], log, is_z3, timeout_ms, abs, script: String::new(), cmd: cmd.to_vec(), inc_timeout_ms };
         s.prelude();
         s
     }
     fn prelude(&mut self) {
         if self.is_z3 {
-            self.send(&format!("(set-option :timeout {})\n", self.timeout_ms));
+            self.send(&format!("(set-option :timeout {})\n", self.inc_timeout_ms.min(self.timeout_ms)));
         } else {
             self.send("(set-logic ALL)\n");
         }
@@ -841,6 +1048,7 @@ impl Solver {
         self.prelude();
         self.tdef.clear();
         self.bdef.clear();
+        self.script.clear();
     }
     fn num(v: &I) -> String {
         if *v < I::from(0u8) {
@@ -856,6 +1064,7 @@ impl Solver {
             lo = Self::num(lo),
             hi = Self::num(hi)
         );
+        self.script.push_str(&s);
         self.send(&s);
     }
     fn tref(ar: &Arena, t: Tm) -> String {
@@ -880,6 +1089,48 @@ impl Solver {
             return;
         }
         self.tdef[i] = true;
+        if self.abs && ar.is_nl(&ar.nodes[i]) {
+            let (a, b) = match &ar.nodes[i] {
+                Node::Mul(a, b) | Node::Div(a, b) | Node::Rem(a, b) => (*a, *b),
+                _ => unreachable!(),
+            };
+            self.define_t(ar, a, out);
+            self.define_t(ar, b, out);
+            let (x, y, m) = (Self::tref(ar, a), Self::tref(ar, b), format!("t{}", t.0));
+            out.push_str(&format!("(declare-const {} Int)\n", m));
+            match &ar.nodes[i] {
+                Node::Mul(..) => {
+                    out.push_str(&format!(
+                        "(assert (=> (and (>= {x} 0) (>= {y} 0)) (>= {m} 0)))\n(assert (=> (= {x} 0) (= {m} 0)))\n(assert (=> (= {y} 0) (= {m} 0)))\n(assert (=> (= {x} 1) (= {m} {y})))\n(assert (=> (= {y} 1) (= {m} {x})))\n(assert (=> (and (>= {x} 1) (>= {y} 1)) (and (>= {m} {x}) (>= {m} {y}))))\n",
+                        x = x, y = y, m = m
+                    ));
+                    // linear bounds from the declared range of a variable operand
+                    for (p, q) in [(a, &y), (b, &x)] {
+                        if let Node::Var(n) = &ar.nodes[p.0 as usize] {
+                            if let Some(vi) = ar.vars.iter().find(|v| &v.name == n) {
+                                out.push_str(&format!(
+                                    "(assert (=> (>= {q} 0) (and (<= (* {lo} {q}) {m}) (<= {m} (* {hi} {q})))))\n",
+                                    q = q, m = m, lo = Self::num(&vi.lo), hi = Self::num(&vi.hi)
+                                ));
+                            }
+                        }
+                    }
+                }
+                Node::Div(..) => {
+                    out.push_str(&format!(
+                        "(assert (=> (and (>= {x} 0) (>= {y} 1)) (and (>= {m} 0) (<= {m} {x}))))\n(assert (=> (= {y} 1) (= {m} {x})))\n(assert (=> (and (>= {x} 0) (< {x} {y})) (= {m} 0)))\n(assert (=> (and (>= {y} 1) (>= {x} {y})) (>= {m} 1)))\n(assert (=> (and (>= {y} 1) (= {x} {y})) (= {m} 1)))\n",
+                        x = x, y = y, m = m
+                    ));
+                }
+                _ => {
+                    out.push_str(&format!(
+                        "(assert (=> (and (>= {x} 0) (>= {y} 1)) (and (>= {m} 0) (< {m} {y}) (<= {m} {x}))))\n",
+                        x = x, y = y, m = m
+                    ));
+                }
+            }
+            return;
+        }
         let body = match &ar.nodes[i] {
             Node::Const(_) | Node::Var(_) => return,
             Node::Add(a, b) | Node::Sub(a, b) | Node::Mul(a, b) | Node::Div(a, b) | Node::Rem(a, b) => {
@@ -941,6 +1192,7 @@ impl Solver {
         let mut out = String::new();
         self.define_b(ar, b, &mut out);
         out.push_str(&format!("(assert {})\n", Self::bref(ar, b)));
+        self.script.push_str(&out);
         self.send(&out);
     }
     fn read_line(&mut self) -> String {
@@ -962,6 +1214,7 @@ impl Solver {
         let mut out = String::new();
         if let Some(b) = extra {
             self.define_b(ar, b, &mut out);
+            self.script.push_str(&out);
             out.push_str(&format!("(push 1)\n(assert {})\n", Self::bref(ar, b)));
         } else {
             out.push_str("(push 1)\n");
@@ -1019,6 +1272,68 @@ impl Solver {
     }
 }
 
+impl Solver {
+    /// pose `script ∧ extra` to a fresh process (non-incremental: z3 runs its full preprocessing)
+    fn oneshot(&mut self, ar: &Arena, extra: Option<Bm>, want_model: Option<&mut Vec<(String, String)>>) -> Sat {
+        let mut text = String::new();
+        if self.is_z3 {
+            text.push_str(&format!("(set-option :timeout {})\n", self.timeout_ms));
+        } else {
+            text.push_str("(set-logic ALL)\n");
+        }
+        text.push_str(&self.script);
+        if let Some(b) = extra {
+            text.push_str(&format!("(assert {})\n", Self::bref(ar, b)));
+        }
+        text.push_str("(check-sat)\n");
+        let names: Vec<String> = ar.vars.iter().map(|v| format!("v_{}", v.name)).collect();
+        let need_model = want_model.is_some() && !names.is_empty();
+        if need_model {
+            text.push_str(&format!("(get-value ({}))\n", names.join(" ")));
+        }
+        text.push_str("(exit)\n");
+        if let Ok(d) = std::env::var("SYMX_DUMP") {
+            static N: AtomicU64 = AtomicU64::new(0);
+            let n = N.fetch_add(1, AO::SeqCst);
+            let _ = std::fs::write(format!("{}/q{}{}.smt2", d, n, if self.abs { "a" } else { "e" }), &text);
+        }
+        let child = Command::new(&self.cmd[0])
+            .args(&self.cmd[1..])
+            .stdin(Stdio::piped())
+            .stdout(Stdio::piped())
+            .stderr(Stdio::null())
+            .spawn();
+        let mut child = match child {
+            Ok(c) => c,
+            Err(_) => return Sat::Unknown,
+        };
+        {
+            let mut si = child.stdin.take().unwrap();
+            let _ = si.write_all(text.as_bytes());
+        }
+        let out = match child.wait_with_output() {
+            Ok(o) => String::from_utf8_lossy(&o.stdout).to_string(),
+            Err(_) => return Sat::Unknown,
+        };
+        let mut lines = out.lines();
+        let first = lines.next().unwrap_or("").trim().to_string();
+        let r = match first.as_str() {
+            "sat" => Sat::Sat,
+            "unsat" => Sat::Unsat,
+            _ => Sat::Unknown,
+        };
+        if r == Sat::Sat && need_model {
+            let rest: String = lines.collect::<Vec<_>>().join(" ");
+            if !rest.contains("(error") {
+                if let Some(m) = want_model {
+                    *m = parse_model(&rest);
+                }
+            }
+        }
+        r
+    }
+}
+
 impl Drop for Solver {
     fn drop(&mut self) {
         let _ = self.stdin.write_all(b"(exit)\n");
@@ -1060,12 +1375,49 @@ fn parse_model(s: &str) -> Vec<(String, String)> {
 // the path oracle
 
 fn solver_check(c: &mut Ctx, extra: Option<Bm>, model: Option<&mut Vec<(String, String)>>) -> Sat {
+    if c.arena.nl > 0 {
+        if abstract_check(c, extra) == Sat::Unsat {
+            return Sat::Unsat;
+        }
+    }
+    exact_check(c, extra, model)
+}
+
+/// over-approximation: Unsat is definitive, anything else is not an answer
+fn abstract_check(c: &mut Ctx, extra: Option<Bm>) -> Sat {
+    let t0 = Instant::now();
+    let Ctx { arena, solver_a, stats, .. } = c;
+    let s = solver_a.as_mut().expect("solver");
+    let mut r = s.check(arena, extra, None);
+    if r == Sat::Unknown {
+        r = s.oneshot(arena, extra, None);
+        stats.oneshots += 1;
+    }
+    stats.queries_abstract += 1;
+    if r == Sat::Unsat {
+        stats.abstract_unsat += 1;
+    }
+    stats.solver_ms += t0.elapsed().as_micros() as u64;
+    r
+}
+
+fn exact_check(c: &mut Ctx, extra: Option<Bm>, model: Option<&mut Vec<(String, String)>>) -> Sat {
     let t0 = Instant::now();
     let Ctx { arena, solver, stats, .. } = c;
     let s = solver.as_mut().expect("solver");
-    let r = s.check(arena, extra, model);
+    let mut model = model;
+    let mut r = s.check(arena, extra, model.as_deref_mut());
+    if r == Sat::Unknown {
+        r = s.oneshot(arena, extra, model.as_deref_mut());
+        stats.oneshots += 1;
+    }
     stats.queries += 1;
     stats.solver_ms += t0.elapsed().as_micros() as u64;
+    if t0.elapsed().as_millis() > 1000 && std::env::var("SYMX_SLOW").is_ok() {
+        let mut d = extra.map(|b| showb_in(arena, b, 0)).unwrap_or_default();
+        d.truncate(700);
+        eprintln!("symx: slow exact query ({} ms, {:?}): {}", t0.elapsed().as_millis(), r, d);
+    }
     r
 }
 
@@ -1074,8 +1426,9 @@ fn push_pc(c: &mut Ctx, b: Bm) {
         return;
     }
     c.pc.push(b);
-    let Ctx { arena, solver, .. } = c;
+    let Ctx { arena, solver, solver_a, .. } = c;
     solver.as_mut().expect("solver").assert(arena, b);
+    solver_a.as_mut().expect("solver").assert(arena, b);
 }
 
 /// Which way does the path go on `cond`?  Forks when both sides are feasible.
@@ -1113,8 +1466,24 @@ pub fn decide(cond: Bm) -> bool {
                 _ => panic!("symx: trail mismatch (expected Bool) — nondeterministic harness?"),
             }
         }
-        let st = solver_check(c, Some(cond), None);
-        let sf = if st == Sat::Unsat { Sat::Sat } else { solver_check(c, Some(ncond), None) };
+        let (st, sf) = if c.arena.nl > 0 {
+            // the linear abstraction settles most forced decisions without touching the exact solver
+            let at = abstract_check(c, Some(cond));
+            let af = if at == Sat::Unsat { Sat::Sat } else { abstract_check(c, Some(ncond)) };
+            if at == Sat::Unsat {
+                (Sat::Unsat, if af == Sat::Unsat { Sat::Unsat } else { Sat::Sat })
+            } else if af == Sat::Unsat {
+                (Sat::Sat, Sat::Unsat)
+            } else {
+                let st = exact_check(c, Some(cond), None);
+                let sf = if st == Sat::Unsat { Sat::Sat } else { exact_check(c, Some(ncond), None) };
+                (st, sf)
+            }
+        } else {
+            let st = exact_check(c, Some(cond), None);
+            let sf = if st == Sat::Unsat { Sat::Sat } else { exact_check(c, Some(ncond), None) };
+            (st, sf)
+        };
         if st == Sat::Unknown || sf == Sat::Unknown {
             c.stats.unknown_branches += 1;
         }
@@ -1249,6 +1618,12 @@ pub fn check_d(label: &str, cond: Bm, detail: impl FnOnce() -> String) -> bool {
                 if r == Sat::Unsat {
                     return Err(PathAbort("infeasible"));
                 }
+                if r == Sat::Unknown {
+                    // the path itself could not be shown feasible: not a verdict
+                    c.stats.undecided += 1;
+                    *c.stats.undecided_labels.entry(format!("{}:path_feasibility_unknown", label)).or_default() += 1;
+                    return Ok(true);
+                }
                 let v = Violation {
                     label: label.to_string(),
                     detail: String::new(),
@@ -1330,6 +1705,11 @@ pub fn report_failure(label: &str, kind: &str, detail: String) {
         let r = solver_check(c, None, Some(&mut model));
         if r == Sat::Unsat {
             return Err(PathAbort("infeasible"));
+        }
+        if r == Sat::Unknown {
+            c.stats.undecided += 1;
+            *c.stats.undecided_labels.entry(format!("{}:path_feasibility_unknown", label)).or_default() += 1;
+            return Ok(());
         }
         c.stats.violations.push(Violation {
             label: label.to_string(),
@@ -1505,9 +1885,11 @@ fn run_one_path(f: &(dyn Fn() + Sync)) {
         c.path_solver_discharged = 0;
         c.active = true;
         if c.solver.is_none() {
-            c.solver = Some(Solver::spawn(&c.cfg.solver_cmd, c.cfg.timeout_ms));
+            c.solver = Some(Solver::spawn(&c.cfg.solver_cmd, c.cfg.timeout_ms, c.cfg.inc_timeout_ms, false));
+            c.solver_a = Some(Solver::spawn(&c.cfg.solver_cmd, c.cfg.timeout_ms, c.cfg.inc_timeout_ms, true));
         } else {
             c.solver.as_mut().unwrap().reset();
+            c.solver_a.as_mut().unwrap().reset();
         }
     });
     let r = std::panic::catch_unwind(std::panic::AssertUnwindSafe(|| f()));
@@ -1550,7 +1932,11 @@ fn run_one_path(f: &(dyn Fn() + Sync)) {
                     c.stats.obligations += 1;
                     let mut model = vec![];
                     let sat = if c.solver.is_some() { solver_check(c, None, Some(&mut model)) } else { Sat::Unknown };
-                    if sat != Sat::Unsat {
+                    if sat == Sat::Unknown {
+                        c.stats.undecided += 1;
+                        *c.stats.undecided_labels.entry("uncaught_panic:path_feasibility_unknown".into()).or_default() += 1;
+                    }
+                    if sat == Sat::Sat {
                         c.stats.violations.push(Violation {
                             label: "uncaught_panic".into(),
                             detail: format!("{} @ {}", msg, loc),
@@ -1588,6 +1974,7 @@ pub fn explore(cfg: &Config, f: &(dyn Fn() + Sync)) -> Stats {
                         c.cfg = cfg.clone();
                         c.stats = Stats::default();
                         c.solver = None;
+                        c.solver_a = None;
                     });
                     let mut idle_marked = false;
                     loop {
@@ -1629,6 +2016,7 @@ pub fn explore(cfg: &Config, f: &(dyn Fn() + Sync)) -> Stats {
                     }
                     with(|c| {
                         c.solver = None;
+                        c.solver_a = None;
                         total.lock().unwrap().merge(&c.stats);
                         c.stats = Stats::default();
                     });
